@@ -603,6 +603,7 @@ package engine
 //@ func (*promiseStack).recover
 //@   property C04
 //@   requires s != nil && err != nil
+//@   requires forall j int :: 0 <= j && j < len(*s) ==> (*s)[j] != nil
 //@   modifies heap
 //@   assume-call preserves *s, elems(*s)
 //@   at-call dynamic requires[same-error] a0 == err
@@ -622,7 +623,7 @@ package engine
 
 //@ func (*Promise).child
 //@   property C03
-//@   requires p != nil && len(p.delayed) > 0
+//@   requires p != nil && len(p.delayed) > 0 && p.delayed[0] != nil
 //@   modifies heap
 //@   ghost-set polled 0
 //@   assume-call ensures result != nil
@@ -656,6 +657,7 @@ package engine
 //@   at-call append requires[push-order] called(next) ==> len(a1) == 2 && a1[0] == popped && a1[1] == next
 //@   loop 1 assume forall q *Promise :: q != nil ==> q.cutParent != q
 //@   loop 1 assume forall j int :: 0 <= j && j < len(stack) ==> stack[j] != nil
+//@   loop 1 assume forall q *Promise, j int :: q != nil && 0 <= j && j < len(q.delayed) ==> q.delayed[j] != nil
 //@   at-call (*Promise).child requires[poll-precedes-step] ghost(polled)
 //@   at-call (*Promise).child requires[steps-the-popped-promise] a0 == popped && a1 == ctx
 //@   at-call (*Promise).child requires[cut-done] popped.cutParent == nil
@@ -1026,14 +1028,14 @@ package engine
 
 //@ func textWriter.Write
 //@   property C19
-//@   requires t.stream != nil
+//@   requires t.stream != nil && t.stream.sink != nil
 //@   modifies t.stream.position
 //@   ensures[position-counts-bytes-written] t.stream.position == wrap64(old(t.stream.position) + result0)
 //@   at-call io.Writer.Write requires[forwards-unchanged-in-one-call] a0 == t.stream.sink && a1 == p
 
 //@ func binaryWriter.Write
 //@   property C19
-//@   requires b.stream != nil
+//@   requires b.stream != nil && b.stream.sink != nil
 //@   modifies b.stream.position
 //@   ensures[position-counts-bytes-written] b.stream.position == wrap64(old(b.stream.position) + result0)
 //@   at-call io.Writer.Write requires[forwards-unchanged-in-one-call] a0 == b.stream.sink && a1 == p
